@@ -17,8 +17,8 @@ from ..vloop import SimNet
 
 PROPERTY = "C08"
 LEVEL = "model_checking"
-RULE = ("Part A (schedules): retries r in 1..4, every pattern of per-transmission answer delay from {none,+0.01,+1.0,+1.9,+2.1,"
-        "+3.0,+4.5 s} (7^r), V2 and V3; the device-side log of transmissions (count, instants) and the outcome are compared "
+RULE = ("Part A (schedules): retries r in 1..4, every pattern of per-transmission answer delay from {none, 0.005, 0.5, 0.95, 1.05, "
+        "1.5, 2.25} x T (7^r), T = the library's read timeout as measured against a silent device, V2 and V3; the device-side log of transmissions (count, instants) and the outcome are compared "
         "with a 6-line reference model of the retry contract; the r=3 patterns also through AirConditioner.refresh (online flag). "
         "Part B (fault sequences, E2): every single fault and every ordered pair of consecutive faults from {drop, error packet, "
         "marker-free garbage, marker-bearing garbage, peer close} x {handshake, data phase}, connect refused, connect hang, "
@@ -29,12 +29,31 @@ ASSUMPTIONS = ["operations of a history do not overlap", "answer delays are off 
                "the user has authenticated once (honestly) before faults start; re-authentication afterwards is the library's job"]
 IP, PORT = "10.0.0.8", 6444
 CMD = bytes.fromhex("aa21ac8d000000000003418100ff03ff000200000000000000000000000003016971")
-DELAYS = [None, 0.01, 1.0, 1.9, 2.1, 3.0, 4.5]
-DELAYS_T = [None, 0.01, 0.5, 1.0, 1.9, 1.999, 2.001, 2.1, 3.0, 3.999, 4.5, 5.9, 6.1]
+# answer delays as fractions of the library's own read timeout T (2 s today), which is MEASURED, not assumed:
+# the property fixes the retry contract, not the constant
+FRACTIONS = [None, 0.005, 0.5, 0.95, 1.05, 1.5, 2.25]
+FRACTIONS_T = [None, 0.005, 0.25, 0.5, 0.95, 0.9995, 1.0005, 1.05, 1.5, 1.9995, 2.25, 2.95, 3.05]
+_T = {}
+
+
+def read_timeout(version) -> float:
+    """Gap between the first two transmissions to a silent device."""
+    if version not in _T:
+        out, tx, _ = exec_A(version, 4, (None, None, None, None), calibrating=True)
+        if len(tx) >= 2 and tx[1] - tx[0] > 0:
+            _T[version] = round(tx[1] - tx[0], 6)
+        else:
+            _T[version] = 2.0      # documented value; the retry model below will then report what is wrong
+    return _T[version]
+
+
+def delays_for(version, fractions):
+    T = read_timeout(version)
+    return [None if f is None else round(f * T, 6) for f in fractions]
 
 
 def bounds(tier):
-    return {"retries": [1, 2, 3, 4], "delay_alphabet": DELAYS_T if tier == "thorough" else DELAYS,
+    return {"retries": [1, 2, 3, 4], "delay_alphabet_as_fraction_of_measured_read_timeout": FRACTIONS_T if tier == "thorough" else FRACTIONS,
             "fault_depth": 3 if tier == "thorough" else 2, "protocols": [2, 3],
             "starts": ["cold", "warm", "closed", "expired"]}
 
@@ -62,17 +81,17 @@ def shards(tier):
 
 
 # ---------------------------------------------------------------- part A
-def model_A(r, delays):
+def model_A(r, delays, T=2.0):
     arrivals = []
     count = 0
     for i in range(r):
-        if any(x < 2 * i for x in arrivals):
+        if any(x < T * i for x in arrivals):
             break
         count += 1
         if delays[i] is not None:
-            arrivals.append(2 * i + delays[i])
+            arrivals.append(T * i + delays[i])
     a = min(arrivals) if arrivals else None
-    ok = a is not None and a < 2 * r
+    ok = a is not None and a < T * r
     nframes = sum(1 for x in arrivals if abs(x - a) < 1e-9) if ok else 0
     return count, ok, a, nframes
 
@@ -80,8 +99,9 @@ def model_A(r, delays):
 followup = {}
 
 
-def exec_A(version, r, delays, via_refresh=False):
+def exec_A(version, r, delays, via_refresh=False, calibrating=False):
     followup.clear()
+    settle = 20.0 if calibrating else r * read_timeout(version) + 6.0
     w = World()
     token, key = filler("c08/tok", 64), filler("c08/key", 32)
     tx = []
@@ -129,7 +149,7 @@ def exec_A(version, r, delays, via_refresh=False):
                 first = ("exc", e)
             # let every late reply of the first exchange land, then a second exchange with a prompt device:
             # it must transmit its request (exactly once) whatever is still queued from before
-            await asyncio.sleep(8)
+            await asyncio.sleep(settle)
             phase["second"] = True
             try:
                 second = ("ok", len(await lan.send(CMD, retries=r)))
@@ -149,7 +169,8 @@ def exec_A(version, r, delays, via_refresh=False):
 
 def run_A(st: Stats, version, r, part, nparts, via_refresh=False, alphabet=None):
     det = Determinism(first=3, every=307)
-    for idx, delays in enumerate(product(alphabet or DELAYS, repeat=r)):
+    T = read_timeout(version)
+    for idx, delays in enumerate(product(delays_for(version, alphabet or FRACTIONS), repeat=r)):
         if idx % nparts != part:
             continue
         case = {"part": "A", "version": version, "retries": r, "delays": list(delays), "refresh": via_refresh}
@@ -157,14 +178,14 @@ def run_A(st: Stats, version, r, part, nparts, via_refresh=False, alphabet=None)
         if det.due():
             o2, tx2, _ = exec_A(version, r, delays, via_refresh)
             det.check((str(out), tx), (str(o2), tx2), case)
-        count, ok, a, nframes = model_A(r, delays)
+        count, ok, a, nframes = model_A(r, delays, T)
         prob = None
         t0 = tx[0] if tx else 0.0
         rel = [round(t - t0, 6) for t in tx]
         if len(tx) != count:
             prob = f"{len(tx)} transmissions, contract says {count}"
-        elif any(abs(rel[i] - 2 * i) > 1e-6 for i in range(len(rel))):
-            prob = f"transmission instants {rel}"
+        elif any(abs(rel[i] - T * i) > 1e-6 for i in range(len(rel))):
+            prob = f"transmission instants {rel} (read timeout measured as {T})"
         elif via_refresh:
             if out[0] != "ok":
                 prob = f"refresh raised {exc_class(out)}"
@@ -194,7 +215,7 @@ def run_A(st: Stats, version, r, part, nparts, via_refresh=False, alphabet=None)
         st.state(("A", version, r, len(tx), ok))
         st.transitions += len(tx)
         st.ev(("A", version, r, delays, via_refresh), ("ok" if ok else "timeout") + f"/{count}tx", True,
-              sample=None if delays != (None, 2.1, 0.01)[:r] else {**case, "tx_instants": rel, "outcome": exc_class(out)})
+              sample=None if len(st.samples) or idx % 5 else {**case, "tx_instants": rel, "outcome": exc_class(out), "read_timeout": T})
     st.reruns += det.reruns
 
 
@@ -422,7 +443,7 @@ def run_shard(shard, tier) -> Stats:
     if kind == "A":
         run_A(st, version, a, part, nparts)
     elif kind == "AT":
-        run_A(st, version, a, part, nparts, alphabet=DELAYS_T)
+        run_A(st, version, a, part, nparts, alphabet=FRACTIONS_T)
     elif kind == "B3":
         run_B(st, version, a, part, nparts, triples=True)
     elif kind == "Aref":
@@ -437,7 +458,7 @@ def replay(case):
     if case["part"] == "A":
         delays = tuple(case["delays"])
         out, tx, _ = exec_A(case["version"], case["retries"], delays, case.get("refresh", False))
-        return {"outcome": str(out)[:200], "tx": tx, "model": model_A(case["retries"], delays)}
+        return {"outcome": str(out)[:200], "tx": tx, "model": model_A(case["retries"], delays, read_timeout(case["version"]))}
     seq = [tuple(None if x == "None" else x for x in f) if f else None for f in case["seq"]]
     spec = {int(k): v for k, v in case.get("cancel", {}).items()} or None
     out, log, dev, ac, net, _ = exec_B(case["version"], STARTS.index(case["start"]), seq, spec)
